@@ -71,6 +71,14 @@ def fixed_programs(g):
                       "fields": [{"name": f"f{k}", "ty": N(d), "attrs": {}} for k, d in enumerate(deps)]})
     imap = {x["name"]: x for x in items}
     progs.append({"items": items, "probes": [{"ty": N(x["name"]), "values": g.all_variant_values(N(x["name"]), imap)[:2], "de": True} for x in items]})
+    # an unsupported bare-word serde key in front of supported ones (serde reads both; ts-rs has to skip exactly the one it does not know)
+    items = [{"kind": "enum", "name": "FxDeny", "attrs": {"serde_bare_first": ["deny_unknown_fields"], "tag": "kind", "rename_all": "Snake"}, "generics": [], "de": True,
+              "variants": [{"name": "CircleShape", "shape": "named", "attrs": {}, "fields": [{"name": "radius", "ty": P("u8"), "attrs": {}}]},
+                           {"name": "Dot", "shape": "unit", "attrs": {}, "fields": []}]},
+             {"kind": "struct", "name": "FxDenyS", "shape": "named", "attrs": {"serde_bare_first": ["deny_unknown_fields"], "rename_all": "Camel"}, "generics": [], "de": True,
+              "fields": [{"name": "user_name", "ty": P("String"), "attrs": {}}, {"name": "last_seen", "ty": OPT(P("u32")), "attrs": {}}]}]
+    imap = {x["name"]: x for x in items}
+    progs.append({"items": items, "probes": [{"ty": N(x["name"]), "values": g.all_variant_values(N(x["name"]), imap), "de": True} for x in items]})
     return progs
 
 
